@@ -72,9 +72,38 @@ fn cfg_obs() -> String {
     )
 }
 
-/// run `f` on the calling thread or on a fresh one; a panic over there is re-raised here
+type Job = Box<dyn FnOnce() -> String + Send + 'static>;
+
+/// a long-lived second thread (`thread=worker`): it exists from its first use on - also before the initialisation - and is
+/// reused, like a pool thread that read the configuration early
+fn worker() -> &'static std::sync::Mutex<(std::sync::mpsc::Sender<Job>, std::sync::mpsc::Receiver<std::thread::Result<String>>)> {
+    static W: std::sync::OnceLock<std::sync::Mutex<(std::sync::mpsc::Sender<Job>, std::sync::mpsc::Receiver<std::thread::Result<String>>)>> =
+        std::sync::OnceLock::new();
+    W.get_or_init(|| {
+        let (tx, rx) = std::sync::mpsc::channel::<Job>();
+        let (rtx, rrx) = std::sync::mpsc::channel::<std::thread::Result<String>>();
+        std::thread::spawn(move || {
+            for job in rx {
+                let r = std::panic::catch_unwind(std::panic::AssertUnwindSafe(job));
+                if rtx.send(r).is_err() {
+                    break;
+                }
+            }
+        });
+        std::sync::Mutex::new((tx, rrx))
+    })
+}
+
+/// run `f` on the calling thread, on a fresh one (`other`) or on the long-lived worker; a panic over there is re-raised here
 fn on_thread<F: FnOnce() -> String + Send + 'static>(which: &str, f: F) -> String {
-    if which == "other" {
+    if which == "worker" {
+        let w = worker().lock().unwrap();
+        w.0.send(Box::new(f)).unwrap();
+        match w.1.recv().unwrap() {
+            Ok(s) => s,
+            Err(p) => std::panic::resume_unwind(p),
+        }
+    } else if which == "other" {
         match std::thread::spawn(f).join() {
             Ok(s) => s,
             Err(p) => std::panic::resume_unwind(p),
